@@ -287,3 +287,87 @@ def stream_live(chk, P, rule):
             chk.ob(rule, F.name, f'stream-live:{vn}@{F.loc(e)}', not bad, F.where(e),
                    f'{F.s(e)[:60]}: {vn} is live on all {len(sets)} path classes' if not bad else f'{F.s(e)[:60]}: {vn} is {why}')
     return n
+
+
+def packet_filled(chk, P, rule):
+    chk.rule(rule, 'a packet is looked at only after libogg filled it: in vorbisfile.c every read of a field of a local ogg_packet, and '
+             'every call that receives its address for reading, is reached only on paths on which the most recent '
+             'ogg_stream_packetout / ogg_stream_packetpeek on that packet returned a positive value (K4 forks on the result '
+             'class of each such call; libogg writes the packet only then).  On the other paths the packet holds whatever the '
+             'stack held: a branch on op.granulepos then goes either way')
+    import absint
+    from absint import V
+    import k6
+    FILLERS = ('ogg_stream_packetout', 'ogg_stream_packetpeek')
+    n = 0
+    for F in P.functions():
+        if not F.file.endswith('vorbisfile.c'):
+            continue
+        pk = {vid for vid, v in F.vars.items() if v.get('t', '').replace('struct ', '').strip() == 'ogg_packet'}
+        if not pk:
+            continue
+        reads = {}
+
+        class H(k2.Flags):
+            def on_node(self, A, env, e, v):
+                fl = env.get('$flags', frozenset())
+                nd = A.ex[e]
+                if A.final:
+                    vid = None
+                    if nd['k'] == 'member' and not nd.get('arrow'):
+                        b = A.ex[F.strip_casts(nd['c'][0])]
+                        if b['k'] == 'ref' and b['decl'].get('id') in pk:
+                            par = F.sparent.get(e)
+                            is_tgt = par is not None and A.ex[par]['k'] == 'assign' and A.ex[par]['op'] == '=' and A.ex[par]['c'][0] == e
+                            if not is_tgt:
+                                vid = b['decl']['id']
+                    elif nd['k'] == 'call' and nd['callee'].get('d') not in FILLERS:
+                        for a in nd.get('c', []):
+                            v_ = _addr_of_var(F, a)
+                            an = A.ex[F.strip_casts(a)]
+                            if v_ in pk and an['k'] == 'un' and an['op'] == '&':
+                                vid = v_
+                    if vid is not None:
+                        reads.setdefault((e, vid), set()).add(('F', vid) in fl)
+                if nd['k'] == 'assign' and nd['op'] == '=':
+                    l = A.ex[F.strip_casts(nd['c'][0])]
+                    if l['k'] == 'ref' and l['decl'].get('id') in pk:
+                        fl = fl | {('F', l['decl']['id'])}          # whole-struct copy
+                env['$flags'] = fl
+
+            def fork(self, A, env, e):
+                nd = A.ex[e]
+                if nd['k'] != 'call' or nd['callee'].get('d') not in FILLERS or len(nd.get('c', [])) < 2:
+                    return None
+                v_ = _addr_of_var(F, nd['c'][1])
+                an = A.ex[F.strip_casts(nd['c'][1])]
+                if v_ not in pk or not (an['k'] == 'un' and an['op'] == '&'):
+                    return None
+                outs = []
+                for cls, filled in (('nonpos', False), ('pos', True)):
+                    e2 = env.copy()
+                    tmp = dict(e2.get('$tmp') or {})
+                    cur = tmp.get(e)
+                    nv = k6.class_value(cls, (-2 ** 31, 2 ** 31 - 1))
+                    if cur is not None:
+                        nv = cur.copy(lo=max(cur.lo, nv.lo), hi=min(cur.hi, nv.hi))
+                        if nv.is_bottom():
+                            continue
+                    tmp[e] = nv
+                    e2['$tmp'] = tmp
+                    fl = e2.get('$flags', frozenset())
+                    e2['$flags'] = (fl | {('F', v_)}) if filled else fl
+                    outs.append(e2)
+                return outs
+        h = H([])
+        A = absint.Analyzer(P, F, hooks=h, partition=k2.partition)
+        A.run()
+        for (e, vid), st in sorted(reads.items(), key=lambda kv: F.ex[kv[0][0]].get('loc') or [0, 0]):
+            ok = False not in st
+            n += 1
+            nm = F.vars[vid]['name']
+            chk.ob(rule, F.name, f'packet-filled-before-use:{nm}@{F.loc(e)}', ok, F.where(e),
+                   f'`{F.s(e)[:50]}`: {nm} was filled by a positive packetout/packetpeek on every path' if ok else
+                   f'`{F.s(e)[:50]}` is reachable on a path on which no packetout/packetpeek has returned a positive value for {nm} '
+                   'since it was declared: the field holds stack garbage')
+    return n
